@@ -121,16 +121,18 @@ def _tool_env_and_wrapper(job, logbase):
 
 
 def _lib_frame(text):
-    """first stack frame that belongs to libtfhe / harness-independent code: returns function name"""
-    for m in re.finditer(r"#\d+ 0x[0-9a-f]+ in (\S+) (\S+)", text):
-        fn, loc = m.group(1), m.group(2)
-        if "/src/libtfhe/" in loc or "/src/include/" in loc:
-            return fn
-    for m in re.finditer(r"(?:at|by) 0x[0-9A-F]+: (\S+) \(([^)]*)\)", text):
-        fn, loc = m.group(1), m.group(2)
-        if not loc.startswith(("vg_replace", "in /usr", "drv_", "vh")) and "harness" not in loc:
-            if re.search(r"\.(cpp|c|s|h):\d+", loc) and not loc.startswith(("drv_", "vh")):
-                return fn
+    """function name of the first stack frame that lies in the repository's library sources (any report format)"""
+    for ln in text.splitlines():
+        m = re.match(r"\s*#\d+ (?:0x[0-9a-f]+ in )?(.+?) (/\S+?):\d+", ln)          # ASan / UBSan / TSan frames
+        if m and ("/src/libtfhe/" in m.group(2) or "/src/include/" in m.group(2)):
+            return re.sub(r"\(.*", "", m.group(1)).strip().replace(" ", "_")
+        m = re.match(r"==\d+==\s+(?:at|by) 0x[0-9A-F]+: (.+?) \((\S+?):\d+\)", ln)   # valgrind frames
+        if m:
+            fn, f = m.group(1), m.group(2)
+            if f.startswith(("drv_", "vh", "gates.hpp", "iokinds", "vg_replace", "hg_intercepts", "fftw_shim")):
+                continue
+            if f.endswith((".cpp", ".c", ".s", ".h", ".hpp")) and not f.startswith(("new_allocator", "stl_", "alloc_traits", "basic_string", "shared_ptr", "std_", "invoke.h", "thread", "unique_ptr", "functional")):
+                return re.sub(r"\(.*", "", fn).strip().replace(" ", "_")
     return "unknown"
 
 
@@ -167,7 +169,7 @@ def _parse_sanitizer_logs(logbase):
                     kind = m.group(1).strip().replace(" ", "-")
                     fns = []
                     for part in re.split(r"\n\s*\n", blk):
-                        if re.match(r"\s*(Write|Read|Previous|Atomic)", part.strip()) or "of size" in part.split("\n")[0]:
+                        if re.search(r"(?m)^\s*(Write|Read|Previous (write|read)|Atomic (write|read)|Previous atomic) of size", part):
                             fns.append(_lib_frame(part))
                     fns = sorted(set(fns)) or [_lib_frame(blk)]
                     reps.append(("tsan:%s:%s" % (kind, "+".join(fns)), blk[:3000]))
